@@ -31,6 +31,29 @@ def make_grid(eta, layout_name="mode_solve"):
     return Grid(eta, [None] * 3, h, layout_name, MPI.COMM_WORLD, dtype=np.complex128)
 
 
+def modes_job(comm, nprocs, p, ncells, nth, seed, out):
+    """solveEquation with the poloidal modes distributed over processes (mode_solve layout): 'treats modes independently' - the mode a
+    process solves is the one of its GLOBAL index, with that mode's boundary conditions."""
+    from pygyro.model.layout import getLayoutHandler
+    from pygyro.model.grid import Grid
+    from pygyro.poisson.poisson_solver import DiffEqSolver
+    rk = comm.Get_rank()
+    basis = space_objs(p, ncells, 1, False)
+    rn = np.array(basis.greville, dtype=float)
+    eta = [rn, np.arange(nth, dtype=float), np.arange(3, dtype=float)]
+    h = getLayoutHandler(comm, {"v_parallel_2d": [0, 2, 1], "mode_solve": [1, 2, 0]}, list(nprocs), eta)
+    rho = Grid(eta, [None] * 3, h, "mode_solve", comm, dtype=np.complex128)
+    phi = Grid(eta, [None] * 3, h, "mode_solve", comm, dtype=np.complex128)
+    R = np.random.RandomState(seed)
+    G = R.uniform(-1, 1, (nth, 3, len(rn))) + 1j * R.uniform(-1, 1, (nth, 3, len(rn)))       # global (mode, z, r)
+    lay = h.getLayout("mode_solve")
+    rho.getAllData()[:] = G[lay.starts[0]:lay.ends[0], lay.starts[1]:lay.ends[1], lay.starts[2]:lay.ends[2]]
+    phi.getAllData()[:] = 0
+    solver = DiffEqSolver(2 * p + 4, basis, len(rn), nth, lNeumannIdx=[0, 2], uNeumannIdx=[-1], rFactor=lambda r: 1.0 + 0.1 * r, drFactor=lambda r: 1.0 / r)
+    solver.solveEquation(phi, rho)
+    out[rk] = ([int(x) for x in lay.starts], [int(x) for x in lay.ends], np.array(phi.getAllData()).copy())
+
+
 def space_objs(p, ncells, r0, cu):
     from pygyro.splines import splines as spl
     brk = np.arange(ncells + 1, dtype=float) + r0
@@ -208,6 +231,29 @@ def run(ctx):
                           "A=%s B=%s C=%s D=%s E=%s rho=%s, requested exactness %d" % (err, err / scale, p, ncells, r0, m, "N" if lN else "D", A, B, C, D, E, rho, 2 * p + 4),
                           {"space": sp.key(), "r0": r0, "m": m, "A": A, "B": B, "C": C, "D": D, "E": E, "rho": rho, "got": got.tolist(), "want": want.tolist()})
     ctx.extra["exact_weak_form_solutions_compared"] = nweak
+    # ---- modes distributed over processes: the result does not depend on which process solves which mode
+    from mpi4py import MPI
+    for (p_, nc_, nth_) in ((3, 5, 8), (2, 4, 7)):
+        ref = None
+        for g in ([1, 1], [2, 1], [4, 1], [2, 2]):
+            n_ = int(np.prod(g))
+            out = [None] * n_
+            rs = MPI.run(n_, modes_job, policy="random", seed=rng.randint(0, 999), args=(g, p_, nc_, nth_, 3, out))
+            if not rs.ok:
+                ctx.violation({"kind": "solver-raises", "error": rs.describe().split(":")[0][:60], "modes_distributed": True},
+                              "solveEquation with modes distributed over process grid %s: %s" % (g, rs.describe()[:300]), {"nprocs": g})
+                continue
+            full = np.zeros((nth_, 3, nc_ + p_), dtype=complex)
+            for st, en, blk in out:
+                full[st[0]:en[0], st[1]:en[1], st[2]:en[2]] = blk
+            if g == [1, 1]:
+                ref = full
+            ctx.count(("modes-distributed", p_, nc_, nth_, tuple(g)))
+            if ref is not None and not np.max(np.abs(full - ref)) <= 1e-11 * max(1.0, float(np.max(np.abs(ref)))):
+                bad = sorted({int(i) for i in np.argwhere(np.abs(full - ref) > 1e-11 * max(1.0, float(np.max(np.abs(ref)))))[:, 0]})
+                ctx.violation({"kind": "mode-depends-on-process", "modes_distributed": True},
+                              "solveEquation on process grid %s differs from the serial result in the mode rows %s (max dev %g): the modes are not treated "
+                              "independently of their distribution" % (g, bad, float(np.max(np.abs(full - ref)))), {"nprocs": g, "degree": p_, "nth": nth_})
     # ---- relations on the code: grid path = function path with E*rho, linearity, Dirichlet zeros, mode independence, refusal
     for t in range(8 if quick else 60):
         p = rng.choice([2, 3, 4])
